@@ -326,6 +326,20 @@ impl<'i, I: Interner> TypeFolder<I> for UMapFromCanonical<'i, I> {
         .to_lifetime(TypeFolder::interner(self))
     }
 
+    fn fold_free_placeholder_const(
+        &mut self,
+        ty: Ty<I>,
+        universe0: PlaceholderIndex,
+        _outer_binder: DebruijnIndex,
+    ) -> Const<I> {
+        let universe = self.universes.map_universe_from_canonical(universe0.ui);
+        PlaceholderIndex {
+            ui: universe,
+            idx: universe0.idx,
+        }
+        .to_const(TypeFolder::interner(self), ty)
+    }
+
     fn forbid_inference_vars(&self) -> bool {
         true
     }
